@@ -479,19 +479,28 @@ Definition wf_recordb (o : toracles) (r : record) : bool :=
   | RPtr dom host ttl lo => wf_nameb o dom && wf_nameb o host && u32b ttl && wf_locb lo
   | RTxt dom wild txt ttl lo => wf_nameb o dom && wild_okb o wild dom && wf_bytesb txt && u32b ttl && wf_locb lo
   | RAux dom rtype rdata ttl lo => wf_nameb o dom && u16b rtype && wf_bytesb rdata && u32b ttl && wf_locb lo
-  | RIpmap dom lmap => wf_nameb o dom && wf_lmapb lmap
-  | RCsmap dom lmap => wf_nameb o dom && wf_lmapb lmap
+  | RIpmap dom lmap => wf_nameb o dom && wild_okb o (is_wild dom) dom && wf_lmapb lmap
+  | RCsmap dom lmap => wf_nameb o dom && wild_okb o (is_wild dom) dom && wf_lmapb lmap
   | RRangePoint lmap ip ml null locid =>
     wf_lmapb lmap && wf_bytesb ip && (length ip =? 16)%nat && (ml <? 256) && wf_lmapb locid
   end.
 
-(* the shapes on which the unchanged code does not round-trip (known findings) *)
+(* the shapes on which the unchanged code does not round-trip (known findings F12, F26, F27;
+   F8 concerns the unmodelled B/H lines).
+   Shapes that are kept OUTSIDE wf_recordb by decision of the coordinator (they do not round-trip
+   either, observed by the harness, not counted as findings):
+   - names with an empty first label that continue with "*." (`+.*.example.com`, `M.*.example.com`):
+     the text form drops the leading dot and the name is read back as a wildcard (wild_okb / f27_class);
+   - `%ab,::ffff:0:0/90,m1`: a v4-mapped network shorter than /96 is printed by net.IPNet.String as
+     0.0.0.0/0 (the per-record library round-trip premise inside wf_recordb (RNet) is false);
+   - B/H: an alpn id containing ',' entered through a ':'-separated line is cut at the comma when the
+     ','-separated text form is read back (B/H are not modelled; the generator does not claim it). *)
 (* F12: an explicit SOA serial 0 is printed as the empty field *)
 Definition f12_class (serial : N) (r : record) : bool :=
   match r with RSoa _ _ _ ser _ _ _ _ _ _ => (ser =? 0) && negb (serial =? 0) | _ => false end.
-(* F24: a server name holding a '.' whose text form holds none (single label with a trailing dot) *)
+(* F26: a server name holding a '.' whose text form holds none (single label with a trailing dot) *)
 Definition srv_lost (o : toracles) (x : bytes) : bool := negb (contains 46 (normname o x)).
-Definition f24_class (o : toracles) (r : record) : bool :=
+Definition f26_class (o : toracles) (r : record) : bool :=
   match r with
   | RDot _ _ ns _ _ _ => srv_lost o ns
   | RNs _ _ ns _ _ => srv_lost o ns
@@ -499,16 +508,16 @@ Definition f24_class (o : toracles) (r : record) : bool :=
   | RSrv _ _ srv _ _ _ _ _ => srv_lost o srv
   | _ => false
   end.
-(* F25: map owner "*." (root wildcard): the text form "*" is no wildcard; likewise ".*.x" becomes one *)
-Definition f25_class (o : toracles) (r : record) : bool :=
+(* F27: map owner "*." (root wildcard): the text form "*" is no wildcard *)
+Definition f27_class (o : toracles) (r : record) : bool :=
   match r with
-  | RIpmap dom _ => negb (Bool.eqb (is_wild (normname o dom)) (is_wild dom))
-  | RCsmap dom _ => negb (Bool.eqb (is_wild (normname o dom)) (is_wild dom))
+  | RIpmap dom _ => is_wild dom && negb (is_wild (normname o dom))
+  | RCsmap dom _ => is_wild dom && negb (is_wild (normname o dom))
   | _ => false
   end.
 
 Definition finding_class (o : toracles) (serial : N) (r : record) : bool :=
-  f12_class serial r || f24_class o r || f25_class o r.
+  f12_class serial r || f26_class o r || f27_class o r.
 
 Definition wf_lineb (o : toracles) (serial : N) (l : bytes) : bool :=
   match parse_line o serial l with Ok r => wf_recordb o r | Err _ => false end.
